@@ -36,7 +36,20 @@ class Problem:
         self.atoms = {}
         self._base = None
         self.zero = set()      # eliminated digits proven to be 0 (dead remainders, e.g. Montgomery low halves)
-        self.var_elim = list(getattr(ctx, 'extra_defs', []))     # (var, Poly): contract definitions + proven equalities with a unit pivot (Gaussian step), in order
+        # (var, Poly[, 'goal']): contract definitions + proven equalities with a unit pivot (Gaussian step), in order.
+        # A contract variable that was later refined into digits (v = d0 + 2^s d1 + ...) is re-pivoted on its lowest digit.
+        self.var_elim = []
+        for ent in getattr(ctx, 'extra_defs', []):
+            v, repl = ent[0], ent[1]
+            rv = ctx.resolve(Poly.var(v))
+            if len(rv.t) == 1 and (v,) in rv.t:
+                self.var_elim.append(ent); continue
+            low = [m for m, c in rv.t.items() if len(m) == 1 and c == 1]
+            if not low:
+                self.var_elim.append(ent); continue
+            d0 = low[0][0]
+            rest = Poly({m: c for m, c in rv.t.items() if m != (d0,)})
+            self.var_elim.append((d0, repl - rest) + tuple(ent[2:]))
         self.lemma_log = []
 
     def dead_digits(self, roots):
@@ -173,10 +186,10 @@ class Problem:
             return [Poly({m: cc % M for m, cc in d.t.items() if cc % M})]
         return []
 
-    def base(self, fixed):
+    def base(self, fixed, light=False):
         ctx = self.ctx
         out = []
-        for v, repl, c1 in self.defs:
+        for v, repl, c1 in ([] if light else self.defs):
             e = self.ex(Poly.var(v), fixed)
             lo, hi = ctx.bounds[v]
             if v in self.zero: lo = hi = 0
@@ -188,6 +201,7 @@ class Problem:
             else: out.append("(>= %s %s)" % (t, _num(lo))); out.append("(<= %s %s)" % (t, _num(hi)))
         for i, ent in enumerate(self.var_elim):
             if len(ent) == 3: continue       # goal-only rewrite: the variable stays free in the constraint system
+            if light: continue
             v, repl = ent
             lo, hi = ctx.bounds[v]
             e = self.ex(repl, fixed)
@@ -196,7 +210,28 @@ class Problem:
                 continue
             t = self.lin(e)
             out.append("(>= %s %s)" % (t, _num(lo))); out.append("(<= %s %s)" % (t, _num(hi)))
-        for s in ctx.side:
+        side = list(ctx.side)
+        if light:
+            # definitions of booleans that occur nowhere else are dropped (a definition constrains only its own
+            # variable): keep a boolean definition only if its variable is needed by the goal / kept constraints
+            need = set(self._light_need)
+            def cv(c):
+                if c.k == "not": return cv(c.a[0])
+                if c.k in ("and", "or"): return cv(c.a[0]) | cv(c.a[1])
+                if c.k == "cmp": return self.ex(c.a[1] - c.a[2], fixed).vars()
+                if c.k in ("modne", "modeq"): return self.ex(c.a[0], fixed).vars()
+                return set()
+            for sd in side:
+                if sd[0] == "cond": need |= cv(sd[1])
+            for a in ctx.assume: need |= cv(a)
+            changed = True; keep = set()
+            while changed:
+                changed = False
+                for i, sd in enumerate(side):
+                    if sd[0] == "booldef" and i not in keep and self.ex(Poly.var(sd[1]), fixed).vars() & need:
+                        keep.add(i); need |= cv(sd[2]); changed = True
+            side = [sd for i, sd in enumerate(side) if sd[0] != "booldef" or i in keep]
+        for s in side:
             if s[0] == "booldef":
                 _, v, c = s
                 e = self.ex(Poly.var(v), fixed)
@@ -208,18 +243,45 @@ class Problem:
             out.append(self.cond(a, fixed))
         return out
 
-    def text(self, violated, extra=(), fixed=None, want_model=True, pin_env=None):
+    def text(self, violated, extra=(), fixed=None, want_model=True, pin_env=None, light=False):
         self.atoms = {}
-        body = self.base(fixed)
+        self._light_need = set()
+        if light:
+            for p in self.cond_polys(violated): self._light_need |= p.vars()
+            for e in extra:
+                for p in self.cond_polys(e): self._light_need |= p.vars()
+        body = self.base(fixed, light)
         for e in extra: body.append(self.cond(e, fixed))
         body.append(self.cond(violated, fixed))
         if "false" in body: return None
         decls = []; bnds = []
         ctx = self.ctx
-        for m in self.atoms:
+        done = set()
+        work = list(self.atoms)
+        while work:
+            m = work.pop()
+            if m in done: continue
+            done.add(m); self.atoms[m] = True
             decls.append("(declare-const %s Int)" % _name(m))
             lo, hi = ctx.interval(Poly({m: 1}))
             bnds.append("(assert (and (>= %s %s) (<= %s %s)))" % (_name(m), _num(lo), _name(m), _num(hi)))
+            if len(m) >= 2:
+                bl = [x for x in m if ctx.bounds.get(x) == (0, 1)]
+                if bl:
+                    # exact linearisation of c * rest for a 0/1 variable c:  rest - hi(1-c) <= a <= rest - lo(1-c),  lo*c <= a <= hi*c
+                    c = bl[0]; rest = list(m); rest.remove(c); rest = tuple(rest)
+                    if c in rest: rest = tuple(x for x in rest if x != c) or (c,)      # c*c = c
+                    if rest == (c,):
+                        for mm in ((c,),):
+                            if mm not in done: work.append(mm)
+                        bnds.append("(assert (= %s %s))" % (_name(m), _name((c,))))
+                        continue
+                    for mm in ((c,), rest):
+                        if mm not in done: work.append(mm)
+                    rlo, rhi = ctx.interval(Poly({rest: 1}))
+                    A, C, Rn = _name(m), _name((c,)), _name(rest)
+                    bnds.append("(assert (<= %s (* %s %s)))" % (A, _num(rhi), C)); bnds.append("(assert (>= %s (* %s %s)))" % (A, _num(rlo), C))
+                    bnds.append("(assert (<= %s (- %s (* %s (- 1 %s)))))" % (A, Rn, _num(rlo), C)); bnds.append("(assert (>= %s (- %s (* %s (- 1 %s)))))" % (A, Rn, _num(rhi), C))
         if pin_env:
             for m in self.atoms:
                 if all(x in pin_env for x in m):
@@ -233,7 +295,7 @@ class Problem:
         return "\n".join(lines) + "\n"
 
     # ---------------------------------------------------------------- solving
-    def check(self, violated, extra=(), timeout_s=60, solver="z3", split=True, also=(), pin_env=None):
+    def check(self, violated, extra=(), timeout_s=60, solver="z3", split=True, also=(), pin_env=None, light=False):
         """returns (verdict, model_env or None, seconds, info) ; verdict in unsat/sat/unknown/error"""
         t0 = time.time()
         ctx = self.ctx
@@ -249,7 +311,7 @@ class Problem:
         jobs = []
         closed = 0
         for fx in fixsets:
-            txt = self.text(violated, extra, fx, pin_env=pin_env)
+            txt = self.text(violated, extra, fx, pin_env=pin_env, light=light)
             if txt is None: closed += 1; continue
             jobs.append((fx, txt))
         STATS["closed_without_solver"] += closed
